@@ -140,7 +140,44 @@ def Scope.err (s : Scope) (code site : String) (detail : String := "") : Scope :
     a trait object, an enum's interface) is expected takes Go's *default* type — `int`, `float64` — not the type the Go AST
     annotates the literal with: `var x any = 42` holds an `int`, and a later assertion `x.(int32)` panics.  Real Go accepts
     the program; the rule flags the place where its behaviour differs from what the annotated AST (and `Go.Sem`) says. -/
+def intFits (bits : Nat) (signed : Bool) (v : Int) : Bool :=
+  if signed then -(2 : Int) ^ (bits - 1) ≤ v && v < (2 : Int) ^ (bits - 1) else 0 ≤ v && v < (2 : Int) ^ bits
+
+/-- the value of an **integer constant expression** as the back end can emit one: an integer literal (the text may carry a
+    sign: `-127`), unary minus on one (the Go AST has no parenthesis node: `(-1)` is the same tree).  Constant arithmetic
+    (`127 + 1`) is C10's matter (`Model/GoConst.lean`, known findings there) and is not evaluated here. -/
+def intConst : GExpr → Option Int
+  | .int text _ => text.toInt?
+  | .un .neg _ e => (intConst e).map (- ·)
+  | _ => none
+
+def goIntName (bits : Nat) (signed : Bool) : String := (if signed then "int" else "uint") ++ toString bits
+
+/-- **`constant-overflows`** at a typed position (Go spec, "Constants" / "Representability": a constant `x` can be assigned
+    to, passed as, returned as, stored in or compared with a value of type `T` only if `x` is representable by a value of
+    `T`): the printed Go shows the bare constant (`var max uint64 = -1`), so what Go judges is the constant's VALUE at the
+    TARGET type `t` — not the annotation the AST keeps on the literal.  A bare literal whose annotation is the target type
+    has been judged by `tyOf` already (same code, detail = the text) and is not reported twice. -/
+def constOverflow (b : Nat) (sg : Bool) (e : GExpr) : Option Int :=
+  match intConst e with
+  | some v => if intFits b sg v then none else some v
+  | none => none
+
+def Scope.constFits (s : Scope) (fn : String) (t : GTy) (e : GExpr) (what : String) : Scope :=
+  match norm t with
+  | .int b sg =>
+    match constOverflow b sg e with
+    | some v =>
+      let judgedByTyOf := match e with
+        | .int _ a => tyEq a t
+        | _ => false
+      if judgedByTyOf then s
+      else s.err "constant-overflows" fn (toString v ++ " at " ++ goIntName b sg ++ " (" ++ what ++ ")")
+    | none => s
+  | _ => s
+
 def Scope.constIface (s : Scope) (c : Ctx) (fn : String) (t : GTy) (e : GExpr) (what : String) : Scope :=
+  let s := s.constFits fn t e what
   if (c.isIface t).isSome && untypedConst e then s.err "untyped-constant-in-interface" fn what else s
 
 def Scope.lookup (s : Scope) (x : String) : Option GTy :=
@@ -187,9 +224,6 @@ def pkgOf (name : String) : Option String :=
   match name.splitOn "." with
   | [p, _] => some p
   | _ => none
-
-def intFits (bits : Nat) (signed : Bool) (v : Int) : Bool :=
-  if signed then -(2 : Int) ^ (bits - 1) ≤ v && v < (2 : Int) ^ (bits - 1) else 0 ≤ v && v < (2 : Int) ^ bits
 
 mutual
 /-- type of an expression (`none` after an error has been recorded) -/
@@ -273,6 +307,10 @@ partial def tyOf (c : Ctx) (fn : String) (s : Scope) (e : GExpr) : Scope × Opti
     match tl, tr with
     | some tl, some tr =>
       if !tyEq tl tr then (s.err "operand-type-mismatch" fn (reprStr (norm tl) ++ " vs " ++ reprStr (norm tr)), none) else
+      -- a constant operand against a typed (non-constant) operand is converted to that operand's type: it must be
+      -- representable there (`x > -1` with `x uint64`); two constants are an untyped constant expression (C10's matter)
+      let s := if (intConst l).isSome == (intConst r).isSome then s
+               else if (intConst r).isSome then s.constFits fn tl r "operand" else s.constFits fn tr l "operand"
       match op with
       | .add => if isNumeric (norm tl) || tyEq tl .string then (s, some tl) else (s.err "add-unsupported" fn, none)
       | .sub | .mul | .div => if isNumeric (norm tl) then (s, some tl) else (s.err "arith-non-numeric" fn, none)
